@@ -27,6 +27,8 @@ def run(ctx):
     ctx.guarded('R13c', 'chunk_cache::disk', lambda: r13c(ctx))
     ctx.rule('R13d', 're-open tracks every admissible file: put admits any item of at most the capacity (maybe_evict makes room for it), so the directory scan may leave a regular cache file untracked only when its length exceeds the capacity')
     ctx.guarded('R13d', 'chunk_cache::disk::try_parse_cache_file', lambda: r13d(ctx))
+    ctx.rule('R13e', 'once get has found a tracked item, every path that looks again or reports a miss first drops the item from the state (remove_item): an item whose file has vanished does not stay counted')
+    ctx.guarded('R13e', 'chunk_cache::disk::DiskCache::get_impl', lambda: __import__('xl.rules_r5', fromlist=['x']).stale_entries_dropped(ctx, 'R13e'))
 
 
 def arg_local_ty(a, t, i):
